@@ -21,7 +21,7 @@ RULE = ('ThreadSim: real threads released one at a time; yield points at '
         'Non-trivial = a Close frame was written while another call was in '
         'flight; distinct = distinct (base, switch sites) signatures')
 SHRINK_LISTS = [('schedule', 'points')]
-EXPECTED_PROBES = ['close_vs_send', 'close_vs_close', 'close_vs_loop_echo',
+EXPECTED_PROBES = ['stalled_writes', 'close_vs_send', 'close_vs_close', 'close_vs_loop_echo',
                    'close_vs_auto_pong', 'close_vs_auto_ping',
                    'loser_got_websocket_error',
                    'lock_contended', 'split_writes']
@@ -108,11 +108,13 @@ def plan(tier):
                 ('sweep1b', len(BASES) * SLOT1),
                 ('sweep2_full', sum(_full2_size(b) for b in _full2_bases())),
                 ('base_random', len(BASES) * 6000),
+                ('stall', 40000),
                 ('sweep2', 60000),
                 ('random', 120000)]
     return [('sweep1', len(BASES) * SLOT1),
             ('sweep1b', len(BASES) * SLOT1),
             ('base_random', len(BASES) * 250),
+            ('stall', 1500),
             ('sweep2', 3000 if q else 150000),
             ('random', 2500 if q else 120000)]
 
@@ -150,6 +152,31 @@ def make_case(family, i, rng, tier):
             case['schedule'] = {'kind': 'pct', 'seed': rng.getrandbits(32),
                                 'd': rng.choice([2, 3, 4]),
                                 'horizon': rng.choice([150, 400, 800])}
+        return case
+    if family == 'stall':
+        # a sender's sendall blocks half-way (the peer stopped reading) for
+        # seconds of simulated time while other threads / the event loop
+        # want to close
+        names = ['close_vs_text', 'close_vs_big_frame', 'three_threads',
+                 'close_text_vs_loop_ping_close', 'text_vs_loop_echo',
+                 'loop_echo_vs_big_frame', 'close_vs_binary_text',
+                 'text_close_vs_text']
+        nm = names[i % len(names)]
+        case = copy.deepcopy([b for b in BASES if b['name'] == nm][0])
+        senders = [t + 1 for t, prog in enumerate(case['threads'])
+                   if prog[0]['op'] != 'close']
+        case['stall'] = {'tid': rng.choice(senders), 'k': 0,
+                         'us': rng.choice([900001, 2500001, 5500001,
+                                           12000001, 40000001])}
+        case['eof_after'] = 90000000
+        case['name'] = nm + '+stall'
+        if rng.random() < 0.5:
+            # let the stalled sender go first
+            case['schedule'] = {'kind': 'preempt',
+                                'points': [[1, case['stall']['tid']]]}
+        else:
+            case['schedule'] = {'kind': 'random', 'seed': rng.getrandbits(32),
+                                'stay': rng.choice([0.7, 0.9, 0.97])}
         return case
     if family == 'sweep2_full':
         for b in _full2_bases():
